@@ -1,6 +1,6 @@
 SPECIFICATION Spec
 INVARIANTS TypeOK ValuesBounded
-PROPERTIES MergeOnePerStored ChartExact MissingDayNotFound
+PROPERTIES MergeOnePerStored MergeAllOnePerStored ChartExact MissingDayNotFound
 CHECK_DEADLOCK FALSE
 CONSTANTS
  NDays = 2
@@ -9,3 +9,5 @@ CONSTANTS
  Charts <- MCCharts
  MaxUp = 3
  MaxSteps = 3
+ Weekly = FALSE
+ ChartLens = {0, 1}
